@@ -215,6 +215,10 @@ ROUND14 = {
     'C14': " Round 14: what read() has not handed out stays in the file (share of C13.R15 / R7); every path of tell() answers with a position.",
 }
 
+# obligations added in round 16
+ROUND16 = {
+    'C12': " Round 16: a port given as the `port` option, as the metrics output or in a source is reserved whether or not the filter has explicit outputs of its own.",
+}
 # obligations added in round 15
 ROUND15 = {
     'C04': " Round 15: after a CLOSE the publisher decides again from all the consumers it knows (share of C03.R6).",
@@ -236,7 +240,7 @@ def main():
         if pid not in reg:
             continue
         tech, text, ref, nd = CLAIMS[pid]
-        text += ROUND6.get(pid, '') + ROUND7.get(pid, '') + ROUND8.get(pid, '') + ROUND9.get(pid, '') + ROUND10.get(pid, '') + ROUND11.get(pid, '') + ROUND12.get(pid, '') + ROUND13.get(pid, '') + ROUND14.get(pid, '') + ROUND15.get(pid, '')
+        text += ROUND6.get(pid, '') + ROUND7.get(pid, '') + ROUND8.get(pid, '') + ROUND9.get(pid, '') + ROUND10.get(pid, '') + ROUND11.get(pid, '') + ROUND12.get(pid, '') + ROUND13.get(pid, '') + ROUND14.get(pid, '') + ROUND16.get(pid, '') + ROUND15.get(pid, '')
         checks.append({
             'property_id': pid,
             'quick_cmd': f'./check {pid} --tier quick',
